@@ -72,6 +72,7 @@ func verifyFunction(w *World, fn *ssa.Function) (rep *FnReport) {
 	e.stack = append(e.stack, fn)
 	st := &State{pc: "true", locals: map[*ssa.Alloc][]string{}, regs: map[ssa.Value]*Val{}, heap: map[string]string{}}
 	e.assume(st, "(>= "+e.heapGet(st, e.keyAlloc())+" 0)")
+	e.assumeTrackedWF(st)
 	args, binds := fx.genericArgs(st)
 	for i, p := range fn.Params {
 		st.regs[p] = args[i]
@@ -141,21 +142,63 @@ func verifyFunction(w *World, fn *ssa.Function) (rep *FnReport) {
 	if out.pc == "false" {
 		return
 	}
-	// postconditions
-	old := fx.old
-	if fx.acqState != nil {
-		old = fx.acqState
-	}
+	// postconditions: checked at every return site, against the state at the first acquire on that path
+	// (atomic functions) or the entry state
 	if con != nil {
-		env := fx.specEnv(out, old, nil)
-		fx.bindResults(env, con.Results, fn.Signature, rv)
-		for _, en := range con.Ensures {
-			sv := env.eval(en.Expr)
-			g := "false"
-			if sv != nil && len(sv.V.L) == 1 {
-				g = sv.V.L[0]
+		for ri, rst := range fx.rets {
+			rold := fx.old
+			if rst.acq != nil {
+				rold = rst.acq
 			}
-			e.addObl("contract", "ensures"+en.labelStr(), en.Tags, out, g, fn.Pos())
+			env := fx.specEnv(rst, rold, nil)
+			fx.bindResults(env, con.Results, fn.Signature, fx.retVals[ri])
+			for _, en := range con.Ensures {
+				sv := env.eval(en.Expr)
+				g := "false"
+				if sv != nil && len(sv.V.L) == 1 {
+					g = sv.V.L[0]
+				}
+				name := "ensures" + en.labelStr()
+				if len(fx.rets) > 1 {
+					name += fmt.Sprintf("@return%d", ri+1)
+				}
+				e.addObl("contract", name, en.Tags, rst, g, fx.retPos[ri])
+			}
+		}
+		if con.Constructor && rv != nil {
+			// a constructor establishes the type invariant of the object it returns
+			res := fn.Signature.Results()
+			if res.Len() >= 1 {
+				rt := res.At(0).Type()
+				obj := rv
+				if res.Len() > 1 {
+					obj = rv.Tup[0]
+				}
+				if con.ConsType != "" {
+					// result is an interface boxing *T
+					if tt := e.resolveType(&STypeExpr{Kind: "ptr", Elem: &STypeExpr{Kind: "named", Name: con.ConsType}}, con.Pkg); tt != nil {
+						tn := shortTypeName(tt)
+						ub := e.c.fun(fmt.Sprintf("unbox_%s_%d", tn, 0), []Sort{SInt}, SInt)
+						tof := e.c.fun("typeof", []Sort{SInt}, SInt)
+						e.addObl("contract", "constructor:type", frameTags(con), out, and(not(eq(obj.L[0], "0")), eq(app(tof, obj.L[0]), fx.typeTag(tt))), fn.Pos())
+						obj = scalar(app(ub, obj.L[0]))
+						rt = tt
+					}
+				}
+				if pt, ok := rt.Underlying().(*types.Pointer); ok {
+					if n, ok := pt.Elem().(*types.Named); ok && n.Obj().Pkg() != nil {
+						for _, c := range w.spec.TypeInvs[n.Obj().Pkg().Path()+"."+n.Obj().Name()] {
+							env := &SpecEnv{fx: fx, e: e, st: out, vars: map[string]*SV{"this": {V: obj, T: rt}}, pkg: c.Pkg}
+							sv := env.eval(c.Expr)
+							g := "false"
+							if sv != nil && len(sv.V.L) == 1 {
+								g = sv.V.L[0]
+							}
+							e.addObl("contract", "constructor:typeinv:"+n.Obj().Name(), append(frameTags(con), e.autoTags("nopanic", fn)...), out, implies(not(eq(obj.L[0], "0")), g), fn.Pos())
+						}
+					}
+				}
+			}
 		}
 		if con.ModDeclared {
 			allowed := map[string]bool{}
